@@ -59,6 +59,7 @@ pub mod bus_crash;
 pub mod bus_history;
 pub mod cache_bank_history;
 pub mod dma_batches;
+pub mod frame_render;
 pub mod ime_sequences;
 pub mod irq_dispatch;
 pub mod joypad_events;
@@ -71,7 +72,7 @@ pub mod time_conservation;
 pub mod timer_batches;
 
 pub fn all() -> Vec<&'static dyn Scenario> {
-    vec![&timer_batches::TimerBatches, &block_lockstep::BlockLockstep, &bus_crash::BusCrash, &mbc_history::MbcHistory, &cache_bank_history::CacheBankHistory, &joypad_events::JoypadEvents, &lcd_batches::LcdBatches, &dma_batches::DmaBatches, &bus_history::BusHistory, &irq_dispatch::IrqDispatch, &ime_sequences::ImeSequences, &program_lockstep::ProgramLockstep, &time_conservation::TimeConservation, &serial_stdout::SerialStdout, &rom_load_faults::RomLoadFaults]
+    vec![&timer_batches::TimerBatches, &block_lockstep::BlockLockstep, &bus_crash::BusCrash, &mbc_history::MbcHistory, &cache_bank_history::CacheBankHistory, &joypad_events::JoypadEvents, &lcd_batches::LcdBatches, &dma_batches::DmaBatches, &bus_history::BusHistory, &irq_dispatch::IrqDispatch, &ime_sequences::ImeSequences, &program_lockstep::ProgramLockstep, &time_conservation::TimeConservation, &serial_stdout::SerialStdout, &rom_load_faults::RomLoadFaults, &frame_render::FrameRender]
 }
 
 pub fn by_name(name: &str) -> Option<&'static dyn Scenario> {
@@ -92,6 +93,7 @@ pub fn plan(property: &str) -> Vec<&'static str> {
         "C12" => vec!["mbc_history"],
         "C13" => vec!["timer_batches"],
         "C14" => vec!["lcd_batches"],
+        "C15" => vec!["frame_render"],
         "C16" => vec!["dma_batches"],
         "C17" => vec!["joypad_events"],
         "C18" => vec!["serial_stdout"],
